@@ -411,7 +411,28 @@ pub fn run_path(s: &Suite, hist: &[u16], parent_outs_hash: Option<u64>, verbose:
         po.ts.push(ts);
         if let Err(e) = verdict {
             if let Some(m) = e.strip_prefix("MACHINERY: ") {
-                po.machinery = Some(m.to_string());
+                // "no timestamp was reported": either the harness lost the note, or the
+                // call reported success without ever publishing a new generation. The
+                // store itself decides: if the key's generation is what it was before
+                // the call, nothing was written.
+                let unchanged = m.contains("none was reported by the hook")
+                    && op_key(&op).is_some_and(|k| {
+                        let key = &s.tables.keys[k as usize];
+                        let d = sut.store().verif_dump();
+                        let now = d.records.iter().find(|r| &r.key == key).map(|r| (r.timestamp, r.ttl_expiry));
+                        // the model was not advanced by the failed step: it still holds the generation before the call
+                        let before = model.map.get(key).map(|g| (g.ts, g.expiry));
+                        now.is_some() && now == before
+                    });
+                if unchanged {
+                    po.violation = Some(format!(
+                        "C01: {} returned {} (accepted) but no new generation of the key was published: its timestamp and expiry are what they were before the call",
+                        s.tables.describe(&op),
+                        po.outs.last().map(|o| o.brief()).unwrap_or_default()
+                    ));
+                } else {
+                    po.machinery = Some(m.to_string());
+                }
             } else {
                 po.violation = Some(e);
             }
